@@ -92,6 +92,9 @@ def data_frame(B, cfg):
                                 duration='Duration'))
     per = []
     truth = {}
+    # labels of the two observables in the frame (any hashable works as a
+    # label: strings, numeric codes, the code 0, the empty string)
+    L = cfg.get('obs_labels') or {'A': 'A', 'B': 'B'}
     for i, (lab, kinds) in enumerate(zip(cfg['ids'], cfg['layout'])):
         rows = []
         tr = dict(A=[], B=[], doses=[])
@@ -102,11 +105,11 @@ def data_frame(B, cfg):
                  keys['duration']: NAN}
             if k in 'ab':
                 v = B.var('v%d_%d' % (i, j))
-                r[keys['obs']] = 'A' if k == 'a' else 'B'
+                r[keys['obs']] = L['A'] if k == 'a' else L['B']
                 r[keys['value']] = v
                 tr['A' if k == 'a' else 'B'].append((t, v))
             elif k == 'n':
-                r[keys['obs']] = 'A'
+                r[keys['obs']] = L['A']
                 tr['A'].append((t, NAN))
             elif k in 'dx':
                 d, u = B.var('d%d_%d' % (i, j)), B.var('u%d_%d' % (i, j))
@@ -116,7 +119,7 @@ def data_frame(B, cfg):
                 if k == 'x':
                     # a measurement noted on the dose record
                     v = B.var('v%d_%d' % (i, j))
-                    r[keys['obs']] = 'A'
+                    r[keys['obs']] = L['A']
                     r[keys['value']] = v
                     tr['A'].append((t, v))
             rows.append(r)
@@ -142,18 +145,28 @@ def data_frame(B, cfg):
     return df, truth, keys, flat
 
 
+def _lab_eq(a, b):
+    if isinstance(a, float) and a != a:
+        return False
+    return type(a) is type(b) and a == b or (
+        isinstance(a, (int, float)) and isinstance(b, (int, float))
+        and not isinstance(a, bool) and a == b)
+
+
 def case_data(B, cfg):
     df, truth, keys, flat = data_frame(B, cfg)
     snap = _snapshot(df)
     cls = getattr(chi.plots, cfg['figure'])
     fig = cls()
-    obs = cfg.get('observable', 'A')
+    which = cfg.get('observable', 'A')
+    L = cfg.get('obs_labels') or {'A': 'A', 'B': 'B'}
+    obs = L[which]
     pk = cfg['figure'].startswith('PK')
     kw = dict(observable=obs, id_key=keys['id'], time_key=keys['time'],
               obs_key=keys['obs'], value_key=keys['value'])
     if pk:
         kw.update(dose_key=keys['dose'], dose_duration_key=keys['duration'])
-    present = any(r[keys['obs']] == obs for r in flat)
+    present = any(_lab_eq(r[keys['obs']], obs) for r in flat)
     try:
         fig.add_data(df, **kw)
     except ValueError as e:
@@ -168,7 +181,7 @@ def case_data(B, cfg):
     # individuals with rows of the chosen observable, in order of appearance
     order = []
     for r in flat:
-        if r[keys['obs']] == obs and r[keys['id']] not in order:
+        if _lab_eq(r[keys['obs']], obs) and r[keys['id']] not in order:
             order.append(r[keys['id']])
     traces = list(fig._fig.data)
     marker = [t for t in traces if getattr(t, 'showlegend', None) is not False
@@ -192,7 +205,7 @@ def case_data(B, cfg):
     for t_, lab in zip(marker, order):
         B.fact('trace of %s labelled with its ID' % lab,
                t_.name == 'ID: %s' % lab, repr(t_.name))
-        want = truth[lab][obs]
+        want = truth[lab][which]
         _cells(B, 'times of %s' % lab, t_.x, [w[0] for w in want])
         _cells(B, 'values of %s' % lab, t_.y, [w[1] for w in want])
     if cfg['figure'] == 'PDTimeSeriesPlot':
@@ -370,6 +383,18 @@ def jobs(tier):
                         id='Subject', time='t', obs='Biomarker', value='y',
                         dose='Amount', duration='Length')),
                     {'diffcheck': False}))
+    # other kinds of observable labels: numeric codes (incl. 0), the empty
+    # string; the chosen one is not the first in the column
+    for f in figs:
+        for labels, which in (({'A': 0, 'B': 1}, 'A'), ({'A': 1, 'B': 0}, 'B'),
+                              ({'A': '', 'B': 'x'}, 'A'),
+                              ({'A': 2, 'B': 1}, 'A')):
+            out.append(('data', 'case_data', dict(
+                figure=f, ids=['b', 'a'],
+                layout=[['b', 'a', 'b'], ['a', 'd', 'b'], ['a']][
+                    ::1 if which == 'A' else -1],
+                order='blocks', observable=which, obs_labels=labels,
+                extra_column=False), {'diffcheck': False}))
     # more individuals than the colour palette has entries (10)
     for f in figs:
         out.append(('data', 'case_data', dict(
